@@ -54,6 +54,11 @@ outer:
 		n++
 	}
 	if n == 0 {
+		if isGlob {
+			// the pattern starts with a wildcard: no literal prefix to range over
+			g.IsGlob = true
+			return g
+		}
 		g.Limits = []string{pattern, pattern}
 		g.IsGlob = false
 		return g
